@@ -764,6 +764,11 @@ class EvalMixin:
         return self.binop(st, n.op, a, b)
 
     def binop(self, st, op, a, b):
+        if isinstance(a, Opaque) or isinstance(b, Opaque):
+            # e.g. pathlib.Path / str : an unknown value that is a function of the operands
+            ta = a.tag if isinstance(a, Opaque) else (str(z3.simplify(a.e)) if isinstance(a, Z) else repr(a))
+            tb = b.tag if isinstance(b, Opaque) else (str(z3.simplify(b.e)) if isinstance(b, Z) else repr(b))
+            return Opaque(f"({ta} {type(op).__name__} {tb})")
         if isinstance(a, Union) or isinstance(b, Union):
             if st.spec:
                 if isinstance(a, Union):
